@@ -75,6 +75,9 @@ class SeqSuite(Suite):
             # callback consumers only in one case out of 16: if the queue ever resolved a promise under its lock every
             # such case would deadlock (and cost the harness's alarm time)
             cons_kinds = ["cons", "cbcons"] if i % 16 == 0 else ["cons"]
+            # same economy for a throwing item constructor: if `push` ever left the lock locked, every later operation
+            # of such a case would hang until the harness's alarm
+            throwing = kind == "q" and i % 16 == 8
             ops = []
             for k in range(nops):
                 if rng.random() < 0.15:
@@ -89,6 +92,8 @@ class SeqSuite(Suite):
                         ops.append("pop")
                 elif r < 0.86:
                     ops.append("upop %d" % rng.randint(1, 9))
+                elif r < 0.90 and throwing:
+                    ops.append("pushthrow")
                 elif r < 0.94:
                     ops.append("size")
                 else:
@@ -148,6 +153,8 @@ class SeqSuite(Suite):
         def resolve(i, o, expect_head=True):
             """pop i was resolved with outcome o (just now)"""
             nonlocal given
+            if o == "v:-666":
+                msgs.append("corrupt: pop#%d received a destroyed or moved-from item" % i)
             if is_value(o):
                 if given >= len(pushed):
                     msgs.append("duplicate: pop#%d received %s but every pushed item was already delivered" % (i, o))
@@ -207,6 +214,11 @@ class SeqSuite(Suite):
                     msgs.append("lost: pop#%d parked although %d items were queued" % (i, n_items))
                 if completions:
                     msgs.append("spurious: pop resolved other futures %s" % completions)
+            elif w[0] == "pushthrow":
+                if "nothrow" in head:
+                    msgs.append("spurious: the push of an item whose constructor throws returned normally")
+                if completions:
+                    msgs.append("spurious: a push that threw resolved %s" % completions)
             elif w[0] in ("cons", "cbcons"):
                 if any(pop_state.get(i) == "pending" for i, o in completions):
                     msgs.append("spurious: %s resolved older futures %s" % (w[0], completions))
@@ -271,24 +283,26 @@ class SeqSuite(Suite):
 
 
 class SchedSuite(Suite):
-    """interleavings on the real header: every operation runs on its own thread, the queue's Lock parameter parks an
-    operation after a lock region that took a promise out of `_awaiters`, and `deliver k` lets the k-th parked call
-    perform its out-of-lock resolution - so lock regions of other producers/consumers run in between (the model's
-    `Op.deliver`)."""
+    """interleavings on the real header (harness `run_sched`): every operation runs on its own thread and the queue's
+    Lock template argument is a scheduling point.  An operation parks `paused` after a lock region that took a promise
+    out of `_awaiters` (`deliver k` then performs the out-of-lock resolution = the model's `Op.deliver`), `holding`
+    (`hold <op>`) inside its lock region, `blocked` in front of a lock held by another operation (it takes effect when it
+    is delivered, after the holder), `midcall` in front of a second lock region of the same operation.  Every line shows
+    the number of lock regions the operation entered (`r=`)."""
     name = "q-scheduled"
     harness = HARNESS
     driver = "drv_c09"
     corpus_prefix = "c09_sched"
     chunk = 60
-    nontrivial_rule = "at least one resolution was delayed past another operation's lock region"
+    nontrivial_rule = "some operation ran while another one was parked (resolution in flight, lock held, or blocked)"
 
     @staticmethod
     def _mk(kind, ops):
         lines = ["case 0 %s" % kind]
         v = 100
         for o in ops:
-            if o == "push":
-                lines.append("push %d" % v if kind == "sq" else "push")
+            if o.split()[-1] == "push":
+                lines.append("%s %d" % (o, v) if kind == "sq" else o)
                 v += 1
             else:
                 lines.append(o)
@@ -297,96 +311,129 @@ class SchedSuite(Suite):
 
     def gen_cases(self, rng, tier):
         cases = []
-        alpha = ["push", "pop", "upop 3", "deliver 0", "deliver 1"]
+        base = ["push", "pop", "upop 3", "deliver 0", "deliver 1"]
         ln_q, ln_v = (6, 5) if tier == "quick" else (8, 7)
         for kind, ln in (("sq", ln_q), ("svq", ln_v)):
             for n in range(2, ln + 1):
-                for ops in itertools.product(alpha, repeat=n):
+                for ops in itertools.product(base, repeat=n):
                     # a history without a parked pop before the first push/upop is covered by the sequential suite
                     if "pop" in ops and any(o.startswith("deliver") for o in ops):
                         cases.append(self._mk(kind, ops))
-        n = 2500 if tier == "quick" else 60000
+        # operations issued while another one is inside its lock region
+        ext = base + ["hold size", "hold push"]
+        ln_h = 5 if tier == "quick" else 6
+        for kind in ("sq", "svq"):
+            for n in range(2, (ln_h if kind == "sq" else ln_h - 1) + 1):
+                for ops in itertools.product(ext, repeat=n):
+                    h = [i for i, o in enumerate(ops) if o.startswith("hold")]
+                    if h and h[0] < n - 1 and "pop" in ops:
+                        cases.append(self._mk(kind, ops))
+        # a push whose item constructor throws, followed by other operations
+        for n in range(1, 5 if tier == "quick" else 7):
+            for ops in itertools.product(["pushthrow", "push", "pop", "size"], repeat=n):
+                if "pushthrow" in ops[:-1] or ops == ("pushthrow",):
+                    cases.append(self._mk("sq", ops))
+        n = 3000 if tier == "quick" else 60000
         for i in range(n):
             kind = "sq" if rng.random() < 0.7 else "svq"
             nops = rng.randint(4, 14) if rng.random() < 0.3 else rng.randint(10, 60)
             bias = rng.choice([0.3, 0.4, 0.5])
-            lazy = rng.choice([0.1, 0.3, 0.6])        # how long resolutions are left in flight
-            parked = items = infl = 0
+            lazy = rng.choice([0.1, 0.3, 0.6])        # how long parked operations are left alone
+            holdp = rng.choice([0.0, 0.08, 0.2])
+            parked = items = npend = 0
+            held = False
             ops = []
             for k in range(nops):
                 if rng.random() < 0.15:
                     bias = rng.choice([0.2, 0.4, 0.6])
                 r = rng.random()
-                if infl and (infl >= 5 or rng.random() > lazy):
-                    j = rng.randrange(infl)
+                if npend and (npend >= 6 or rng.random() > lazy):
+                    j = rng.randrange(npend)
                     ops.append("deliver %d" % j)
-                    infl -= 1
-                elif r < 0.70:
-                    if rng.random() < bias:
-                        ops.append("push")
-                        if parked:
-                            parked -= 1
-                            infl += 1
-                        else:
-                            items += 1
-                    else:
-                        ops.append("pop")
-                        if items:
-                            items -= 1
-                        else:
-                            parked += 1
-                elif r < 0.84:
-                    ops.append("upop %d" % rng.randint(1, 9))
-                    if parked:
-                        parked -= 1
-                        infl += 1
-                elif r < 0.90:
-                    ops.append("size")
-                elif r < 0.94:
-                    ops.append("empty")
+                    if held and j == 0:
+                        held = False
+                    npend -= 1
+                    continue
+                if r < 0.70:
+                    op = "push" if rng.random() < bias else "pop"
+                elif r < 0.82:
+                    op = "upop %d" % rng.randint(1, 9)
+                elif r < 0.88:
+                    op = "size"
+                elif r < 0.92:
+                    op = "empty"
+                elif r < 0.95 and kind == "sq":
+                    op = "pushthrow"
                 else:
                     ops.append("deliver %d" % rng.randint(0, 3))   # possibly no such call: must be a no-op
-                    infl = max(0, infl - 1) if infl and int(ops[-1].split()[1]) < infl else infl
+                    continue
+                if held:
+                    npend += 1          # blocked
+                elif rng.random() < holdp and op != "pushthrow":
+                    op = "hold " + op
+                    held = True
+                    npend += 1
+                elif op == "push":
+                    if parked:
+                        parked -= 1
+                        npend += 1
+                    else:
+                        items += 1
+                elif op == "pop":
+                    if items:
+                        items -= 1
+                    else:
+                        parked += 1
+                elif op.startswith("upop") and parked:
+                    parked -= 1
+                    npend += 1
+                ops.append(op)
             if rng.random() < 0.25:
                 ops.append("destroy")
             cases.append(self._mk(kind, ops))
         return cases
 
+    @staticmethod
+    def _head(line):
+        return line.split(" ;")[0]
+
     def nontrivial(self, case, out):
-        # some line between a `paused` line and its `deliver` line
         open_ = 0
         for l in out:
-            if l.startswith("deliver ") and not l.startswith("deliver none"):
-                open_ -= 1
-            elif open_ > 0 and not l.startswith("end"):
+            h = self._head(l)
+            if h.startswith("deliver r="):
+                st = h.rsplit(":", 1)[-1]
+                if st not in ("paused", "midcall", "blocked"):
+                    open_ -= 1
+            elif open_ > 0 and not h.startswith("end") and not h.startswith("deliver"):
                 return True
-            if l.endswith("paused") or " paused ;" in l:
+            if any(h.split()[1:2] == [s] for s in ("paused", "holding", "blocked", "midcall")):
                 open_ += 1
         return False
 
     def stats(self, cases, outs):
         ops, kinds = {}, {}
-        paused = max_inflight = delayed = 0
+        cnt = {"paused": 0, "holding": 0, "blocked": 0, "midcall": 0}
         for c in cases:
             k = c["lines"][0].split()[2]
             kinds[k] = kinds.get(k, 0) + 1
             for l in c["lines"][1:-1]:
-                w = l.split()[0]
-                ops[w] = ops.get(w, 0) + 1
-            cur = 0
+                w = l.split()
+                key = "hold" if w[0] == "hold" else w[0]
+                ops[key] = ops.get(key, 0) + 1
             for l in outs.get(str(c["id"]), []):
-                if l.split(" ;")[0].endswith("paused"):
-                    paused += 1
-                    cur += 1
-                    max_inflight = max(max_inflight, cur)
-                elif l.startswith("deliver ") and not l.startswith("deliver none"):
-                    cur -= 1
-                elif cur:
-                    delayed += 1
-        return {"kinds": kinds, "ops": ops, "calls_parked_before_resolution": paused,
-                "max_resolutions_in_flight": max_inflight, "lock_regions_run_while_a_resolution_was_in_flight": delayed}
+                w = self._head(l).split()
+                if len(w) > 1 and w[1] in cnt:
+                    cnt[w[1]] += 1
+        return {"kinds": kinds, "ops": ops, "calls_parked": cnt}
 
     def oracle(self, case, out):
+        """C09 on an interleaved trace.  An operation takes effect on the line that shows its result (for an operation
+        that was holding or blocked: its `deliver` line - its linearisation point).  While every operation is one lock
+        region, each line is checked against the statement (FIFO of items, waiting pops served in arrival order,
+        unblock_pop takes exactly the oldest, a pop parks only on an empty queue, size/empty).  Always, whenever no call
+        is in progress: no pop future is pending while items are queued; nothing delivered twice; nothing left pending
+        after destruction."""
         msgs = []
         hdr = case["lines"][0].split()
         kind = hdr[2]
@@ -394,122 +441,221 @@ class SchedSuite(Suite):
             return msgs
         void = kind == "svq"
         ops = case["lines"][1:]
-        pushed = []
-        given = 0                 # items assigned to pops so far (in lock order)
-        pop_state = {}            # pop id -> 'pending' | outcome
-        taken = set()             # pops whose promise was moved out of the queue (resolution in flight or done)
-        inflight = []             # [(pop id, expected outcome, 'push'|'upop', already resolved)] in the order the calls parked
+        pushed = []               # values pushed, in linearisation order (void: a running number)
+        given = 0                 # items assigned to pops so far
+        pop_state = {}            # pop id -> 'incall' | 'pending' | outcome
+        waiters = []              # parked pops whose promise is still in the queue, in arrival order
+        parked = []               # calls in progress, in the order in which they parked
+        pushes_done = 0           # push calls that returned
         got = {}
-        finished = False
+        state = {"concurrent": False, "finished": False}
 
-        def untaken():
-            return sorted(i for i, s in pop_state.items() if s == "pending" and i not in taken)
+        def val_of(k):
+            return "ok" if void else "v:%d" % pushed[k]
+
+        def resolved(i, o):
+            if pop_state.get(i) not in ("pending", "incall"):
+                msgs.append("duplicate: pop#%d resolved twice or never issued (%s)" % (i, o))
+            pop_state[i] = o
+            if is_value(o):
+                got[i] = o
+                if o == "v:-666":
+                    msgs.append("corrupt: pop#%d received a destroyed or moved-from item" % i)
+
+        def takers():
+            """calls in progress that may still take a waiting pop"""
+            return sum(1 for c in parked if c["type"] in ("deferred", "midcall") and c["w"][0] in ("push", "upop"))
+
+        def apply(w, label, status, completions):
+            """the operation `w` takes effect now, returning / parking with `status`"""
+            nonlocal given, pushes_done
+            strict = not state["concurrent"]
+            expect = []
+            n_items = len(pushed) - given
+            if w[0] == "push":
+                pushed.append(len(pushed) if void else int(w[1]))
+                if status in ("paused", "1"):
+                    if not waiters:
+                        if strict:
+                            msgs.append("spurious: push reported a woken consumer (%s) with nobody waiting" % status)
+                    else:
+                        tgt = waiters.pop(0)
+                        val = val_of(given) if given < len(pushed) else "?"
+                        given += 1
+                        early = completions == [(tgt, val)] or status == "1"
+                        if status == "paused":
+                            parked.append({"type": "resolve", "pop": tgt, "out": val, "ret": "push:1", "early": early,
+                                           "tag": "waiters-fifo"})
+                        if early:
+                            expect = [(tgt, val)]
+                    if status == "1":
+                        pushes_done += 1
+                else:
+                    pushes_done += 1
+                    if status != "0":
+                        msgs.append("harness: push returned %s" % status)
+                    elif strict and len(waiters) > takers():
+                        msgs.append("lost: push with pops %s waiting did not take one" % waiters)
+            elif w[0] == "pushthrow":
+                if status == "nothrow":
+                    msgs.append("spurious: the push of an item whose constructor throws returned normally")
+            elif w[0] == "pop":
+                i = int(label[4:])
+                if status == "pending":
+                    pop_state[i] = "pending"
+                    waiters.append(i)
+                    if strict and n_items > 0:
+                        msgs.append("lost: pop#%d parked although %d items were queued" % (i, n_items))
+                else:
+                    pop_state[i] = "incall"
+                    if strict:
+                        if n_items == 0 or not is_value(status):
+                            msgs.append("spurious: pop#%d on a queue with %d items completed at once with %s" % (i, n_items, status))
+                        elif status != val_of(given):
+                            dup = (not void) and status[2:].lstrip("-").isdigit() and int(status[2:]) in pushed[:given]
+                            msgs.append("%s: pop#%d received %s, the oldest undelivered item is %s"
+                                        % ("duplicate" if dup else "order", i, status, val_of(given)))
+                    if is_value(status):
+                        given += 1
+                    resolved(i, status)
+            elif w[0] == "upop":
+                if status in ("paused", "1"):
+                    if not waiters:
+                        if strict:
+                            msgs.append("unblock_pop: reported success with nobody waiting")
+                    else:
+                        tgt = waiters.pop(0)
+                        out_ = "exc:%s" % w[1]
+                        early = completions == [(tgt, out_)] or status == "1"
+                        if status == "paused":
+                            parked.append({"type": "resolve", "pop": tgt, "out": out_, "ret": "upop:1", "early": early,
+                                           "tag": "unblock_pop"})
+                        if early:
+                            expect = [(tgt, out_)]
+                elif status == "0":
+                    if len(waiters) > takers():
+                        msgs.append("unblock_pop: returned false although pops %s are waiting (nothing else could have "
+                                    "taken them)" % waiters)
+                else:
+                    msgs.append("harness: unblock_pop returned %s" % status)
+            elif w[0] == "size":
+                if strict and status.isdigit() and int(status) != n_items:
+                    msgs.append("size: size() = %s but %d pushed - %d handed out = %d" % (status, len(pushed), given, n_items))
+            elif w[0] == "empty":
+                if strict and (status == "1") != (n_items == 0):
+                    msgs.append("size: empty() = %s but %d items are queued" % (status, n_items))
+            return expect
+
+        def quiescent(where):
+            n = pushes_done - len(got)
+            pend = sorted(i for i, s in pop_state.items() if s == "pending")
+            if pend and n > 0:
+                msgs.append("lost: pops %s are parked while %d items are queued (%s)" % (pend, n, where))
+            if len(got) > len(pushed):
+                msgs.append("duplicate: %d pops received a value for %d pushes" % (len(got), len(pushed)))
 
         for op, line in zip(ops, out):
             w = op.split()
+            if w[0] == "hold" and len(w) > 1:
+                w = w[1:]
             head, evs = parse_line(line)
             if any(o is None for _, o in evs):
                 msgs.append("harness: unexpected event in %r" % line)
             completions = [(i, o) for i, o in evs if o is not None]
-            n_items = len(pushed) - given
-            wait = untaken()
-            expect = []           # completions this op is allowed (and obliged) to perform
-            hd = " ".join(head)
+            expect = []
             if w[0] in ("destroy", "end"):
-                finished = True
-                expect = sorted([(i, o) for i, o, _, early in inflight if not early] + [(i, "canceled") for i in wait])
-                inflight = []
-                if sorted(completions) != expect:
-                    msgs.append("destroy: expected %s, got %s" % (expect, completions))
-            elif w[0] == "push":
-                pushed.append(len(pushed) if void else int(w[1]))
-                if wait:
-                    if hd != "push paused":
-                        msgs.append("lost: push with pops %s waiting did not take one (%s)" % (wait, hd))
-                    else:
-                        val = "ok" if void else "v:%d" % pushed[given]
-                        early = completions == [(wait[0], val)]     # resolved before the lock was dropped: same outcome
-                        inflight.append((wait[0], val, "push", early))
-                        expect = [(wait[0], val)] if early else []
-                        taken.add(wait[0])
-                        given += 1
-                elif hd != "push woke=0":
-                    msgs.append("spurious: push with nobody waiting reported %s" % hd)
-            elif w[0] == "pop":
-                i = int(re.match(r"pop#(\d+)$", head[0]).group(1))
-                if i != len(pop_state):
-                    msgs.append("order: pop ids not consecutive")
-                pop_state[i] = "pending"
-                st = head[1]
-                if st != "pending":
-                    want = None if n_items == 0 else ("ok" if void else "v:%d" % pushed[given])
-                    if want is None:
-                        msgs.append("spurious: pop#%d on an empty queue completed at once with %s" % (i, st))
-                    elif st != want:
-                        kindmsg = "duplicate" if (not void and st.startswith("v:") and st[2:].isdigit()
-                                                  and int(st[2:]) in pushed[:given]) else "order"
-                        msgs.append("%s: pop#%d received %s, the oldest undelivered item is %s" % (kindmsg, i, st, want))
-                    if is_value(st):
-                        given += 1
-                        got[i] = st
-                    pop_state[i] = st
-                    taken.add(i)
-                elif n_items > 0:
-                    msgs.append("lost: pop#%d parked although %d items were queued" % (i, n_items))
-            elif w[0] == "upop":
-                if wait:
-                    if hd != "upop paused":
-                        msgs.append("unblock_pop: with pops %s waiting it must take the oldest (%s)" % (wait, hd))
-                    else:
-                        early = completions == [(wait[0], "exc:%s" % w[1])]
-                        inflight.append((wait[0], "exc:%s" % w[1], "upop", early))
-                        expect = [(wait[0], "exc:%s" % w[1])] if early else []
-                        taken.add(wait[0])
-                elif hd != "upop 0":
-                    msgs.append("unblock_pop: reported %s with nobody waiting" % hd)
-            elif w[0] == "deliver":
+                state["finished"] = True
+                # every call in progress finishes first: resolutions are performed; deferred calls take effect in an
+                # order the trace does not show, so only the futures are judged
+                if not state["concurrent"] and all(c["type"] == "resolve" for c in parked):
+                    want = sorted([(c["pop"], c["out"]) for c in parked if not c["early"]] + [(i, "canceled") for i in waiters])
+                    if sorted(completions) != want:
+                        msgs.append("destroy: expected %s, got %s" % (want, sorted(completions)))
+                for i, o in completions:
+                    if i not in pop_state:
+                        pop_state[i] = "incall"
+                    elif pop_state[i] not in ("pending", "incall"):
+                        msgs.append("duplicate: pop#%d resolved twice (%s)" % (i, o))
+                    pop_state[i] = o
+                    if is_value(o):
+                        got[i] = o
+                        if o == "v:-666":
+                            msgs.append("corrupt: pop#%d received a destroyed or moved-from item" % i)
+                break
+            if head[0] == "bad-op":
+                continue
+            if w[0] == "deliver":
                 k = int(w[1])
-                if k < len(inflight):
-                    i, o, who, early = inflight.pop(k)
-                    expect = [] if early else [(i, o)]
-                    want = "deliver push woke=1" if who == "push" else "deliver upop 1"
-                    if hd != want:
-                        msgs.append("deliver: expected `%s`, got `%s`" % (want, hd))
-                    if completions != expect:
-                        tag = "waiters-fifo" if who == "push" else "unblock_pop"
-                        msgs.append("%s: the call that took pop#%d must resolve exactly it with %s, got %s" % (tag, i, o, completions))
-                elif hd != "deliver none":
-                    msgs.append("harness: deliver of a non-existent call gave %s" % hd)
-            elif w[0] == "size":
-                if int(head[1]) != n_items:
-                    msgs.append("size: size() = %s but %d pushed - %d handed out = %d" % (head[1], len(pushed), given, n_items))
-            elif w[0] == "empty":
-                if (head[1] == "1") != (n_items == 0):
-                    msgs.append("size: empty() = %s but %d items are queued" % (head[1], n_items))
-            if w[0] not in ("destroy", "end", "deliver") and completions != expect:
+                if head[1] == "none":
+                    if not state["concurrent"] and k < len(parked):
+                        msgs.append("harness: deliver %d found no call" % k)
+                elif head[1] == "held":
+                    pass
+                else:
+                    r = head[1]
+                    ret = head[2][4:] if len(head) > 2 and head[2].startswith("ret=") else ""
+                    label, _, status = ret.partition(":")
+                    c = parked.pop(k) if k < len(parked) else None
+                    if c is None:
+                        state["concurrent"] = True
+                    elif c["type"] == "resolve":
+                        if r != "r=0":
+                            state["concurrent"] = True
+                        if status in ("midcall", "blocked", "paused"):
+                            state["concurrent"] = True
+                            parked.append(c)
+                        else:
+                            if ret != c["ret"]:
+                                msgs.append("%s: the parked call must return %s, got %s" % (c["tag"], c["ret"], ret))
+                            expect = [] if c["early"] else [(c["pop"], c["out"])]
+                            if completions != expect:
+                                msgs.append("%s: the call that took pop#%d must resolve exactly it with %s, got %s"
+                                            % (c["tag"], c["pop"], c["out"], completions))
+                            if c["ret"].startswith("push"):
+                                pushes_done += 1
+                    else:
+                        if status in ("midcall", "blocked"):
+                            if status == "midcall":
+                                state["concurrent"] = True
+                            c["type"] = "midcall" if status == "midcall" else c["type"]
+                            parked.append(c)
+                        else:
+                            want_r = "r=0" if c.get("holding") else "r=1"
+                            if c["type"] == "midcall" or r != want_r:
+                                state["concurrent"] = True
+                            expect = apply(c["w"], c["label"], status, completions)
+                            if completions != expect:
+                                msgs.append("spurious: `%s` (delivered) resolved %s" % (" ".join(c["w"]), completions))
+            else:
+                label, status = head[0], (head[1] if len(head) > 1 else "")
+                r = head[2] if len(head) > 2 else ""
+                if w[0] == "pop":
+                    pop_state[int(label[4:])] = "incall"
+                if status in ("holding", "blocked", "midcall"):
+                    if status == "midcall":
+                        state["concurrent"] = True
+                    parked.append({"type": "midcall" if status == "midcall" else "deferred", "w": w, "label": label,
+                                   "holding": status == "holding"})
+                else:
+                    if status != "n/a" and r not in ("r=1", "r=0"):
+                        state["concurrent"] = True      # more lock regions than the operation has
+                    expect = apply(w, label, status, completions)
+            if completions != expect and head[0] != "deliver":
                 msgs.append("spurious: `%s` resolved %s" % (op, completions))
             for i, o in completions:
-                if pop_state.get(i) != "pending":
-                    msgs.append("duplicate: pop#%d resolved twice or never issued (%s)" % (i, o))
-                pop_state[i] = o
-                if is_value(o):
-                    got[i] = o
-            if finished:
-                break
-            if untaken() and len(pushed) - given > 0:
-                msgs.append("lost: pops %s are parked while %d items are queued" % (untaken(), len(pushed) - given))
-        if not finished:
+                resolved(i, o)
+            if not parked and not any(s == "incall" for s in pop_state.values()):
+                quiescent("after `%s`" % op)
+        if not state["finished"]:
             msgs.append("hang: the trace ends before the queue was destroyed (%d lines for %d ops)" % (len(out), len(ops)))
-        elif any(s == "pending" for s in pop_state.values()):
+        elif any(s in ("pending", "incall") for s in pop_state.values()):
             msgs.append("hang: a pop future is still pending after the queue was destroyed")
         if not void:
-            seq = [int(got[i][2:]) for i in sorted(got) if got[i].startswith("v:")]
+            seq = [int(o[2:]) for o in got.values() if o.startswith("v:")]
             if len(set(seq)) != len(seq):
-                msgs.append("duplicate: an item was delivered twice: %s" % seq)
-            elif seq != pushed[:len(seq)]:
-                msgs.append("order: delivered %s (by pop arrival) is not a prefix of the pushed sequence %s" % (seq, pushed))
-        elif len(got) > len(pushed):
-            msgs.append("duplicate: %d counts handed out for %d pushes" % (len(got), len(pushed)))
+                msgs.append("duplicate: an item was delivered twice: %s" % sorted(seq))
+        if len(got) > len(pushed) + sum(1 for c in parked if c.get("w", [""])[0] == "push"):
+            msgs.append("duplicate: %d values handed out for %d pushes" % (len(got), len(pushed)))
         seen, res = set(), []
         for m in msgs:
             if m not in seen:
